@@ -646,7 +646,10 @@ def index(I, x, key):
             k = k.values
         if isinstance(k, (SymSeq, list, tuple)):
             s = B.as_symseq(k) if not isinstance(k, SymSeq) else k
-            k = Tensor([s.length], lambda idx, s=s: s.elem(lin(idx[0])), "long")
+            if isinstance(s, B.MRSeq):
+                k = Tensor([s.length], lambda idx, s=s: s.elem(idx[0]), "long", [list(s.sizes)])
+            else:
+                k = Tensor([s.length], lambda idx, s=s: s.elem(lin(idx[0])), "long")
         adv_t.append((p, k))
     adv_shape = broadcast_shapes(I, [t.shape for _, t in adv_t], "index.adv") if adv_t else []
     adjacent = bool(adv_t) and all(adv_t[i + 1][0] == adv_t[i][0] + 1 for i in range(len(adv_t) - 1))
